@@ -3,6 +3,7 @@ package rules
 import (
 	"fmt"
 	"go/ast"
+	"go/constant"
 	"go/token"
 	"go/types"
 	"sort"
@@ -59,7 +60,15 @@ func runC11(c *Ctx) {
 	}
 	n := 0
 	var aPaused *gf.Analysis
-	for _, call := range callsIn(sy.Decl.Body, false) {
+	var syncCalls []*ast.CallExpr
+	for _, bd := range fn.Bodies() {
+		for _, call := range callsIn(bd, false) {
+			if !fn.IsExpandedCall(call) { // (an expanded helper's body is looked at itself)
+				syncCalls = append(syncCalls, call)
+			}
+		}
+	}
+	for _, call := range syncCalls {
 		// direct effect sites
 		class, res, verb := "", "", ""
 		for _, s := range c.G.Sites {
@@ -270,87 +279,45 @@ func (c *Ctx) pausedHelper(paused *types.Func) {
 			}
 		}
 	}
-	ast.Inspect(fi.Decl.Body, func(x ast.Node) bool {
-		ret, ok := x.(*ast.ReturnStmt)
-		if !ok || len(ret.Results) != 1 {
-			return true
-		}
-		f := fn.Formula(ret.Results[0])
-		if f == gf.False {
-			return true
-		}
-		n++
-		name := "GetPausedReconcile: return " + types.ExprString(ret.Results[0])
-		// must be `value == "true"` where value, ok := annotations[PausedReconcileAnn]
-		be, ok := ast.Unparen(ret.Results[0]).(*ast.BinaryExpr)
-		good := false
-		if ok {
-			if id, ok := ast.Unparen(be.X).(*ast.Ident); ok && fn.Term(be.Y).Key() == gf.ConstStr("true").Key() {
-				ast.Inspect(fi.Decl.Body, func(y ast.Node) bool {
-					if as, ok := y.(*ast.AssignStmt); ok && len(as.Rhs) == 1 && len(as.Lhs) >= 1 {
-						if l, ok := as.Lhs[0].(*ast.Ident); ok && info.ObjectOf(l) == info.ObjectOf(id) {
-							if ix, ok := as.Rhs[0].(*ast.IndexExpr); ok {
-								if tv, ok := info.Types[ix.Index]; ok && tv.Value != nil && tv.Value.ExactString() == keyConst.Val().ExactString() {
-									if call, ok := assignedFrom(fi, info, ix.X).(*ast.CallExpr); ok {
-										if sel, ok := call.Fun.(*ast.SelectorExpr); ok && sel.Sel.Name == "GetAnnotations" {
-											good = true
-										}
-									}
-								}
-							}
-						}
-					}
-					return true
-				})
-			}
-		}
-		c.Check(good, "C11.1-paused-means-annotation-true", name, ret.Pos(), `true only when annotations["paused-reconcile"] == "true"`, "the pause predicate can be true for something other than the pause annotation being \"true\"")
-		return true
-	})
-	c.Floor("C11.1-paused-true-returns", n, 1)
-	// and the other way round: false is returned only when the annotation map is nil or has no such key
-	// (anything else would let a paused set be reconciled)
-	var mapObj, okObj types.Object
-	ast.Inspect(fi.Decl.Body, func(y ast.Node) bool {
-		if as, ok := y.(*ast.AssignStmt); ok && len(as.Rhs) == 1 && len(as.Lhs) == 2 {
-			if ix, ok := ast.Unparen(as.Rhs[0]).(*ast.IndexExpr); ok {
-				if tv, ok := info.Types[ix.Index]; ok && tv.Value != nil && tv.Value.ExactString() == keyConst.Val().ExactString() {
-					if mid, ok := ast.Unparen(ix.X).(*ast.Ident); ok {
-						mapObj = info.ObjectOf(mid)
-					}
-					if oid, ok := as.Lhs[1].(*ast.Ident); ok {
-						okObj = info.ObjectOf(oid)
-					}
-				}
-			}
-		}
-		return true
-	})
+	// in general: at every return, a true result implies annotations[key] == "true" and a false one implies
+	// annotations[key] != "true" (or a nil map), annotations being GetAnnotations() of the parameter. Decided on the
+	// helper together with what the engine expands into it (a lookup helper).
+	params := fi.Decl.Type.Params.List
+	if len(params) != 1 || len(params[0].Names) != 1 {
+		c.Unk("C11.1-paused-means-annotation-true", "GetPausedReconcile", fi.Decl.Pos(), "the helper does not take exactly one object")
+		return
+	}
+	mapT := c.TryWantTerm(fn, fi.Decl.Body.Lbrace+1, "$1.GetAnnotations()", params[0].Names[0])
+	if mapT == nil {
+		c.Unk("C11.1-paused-means-annotation-true", "GetPausedReconcile", fi.Decl.Pos(), "GetAnnotations() of the parameter does not type-check")
+		return
+	}
+	val := gf.Index(mapT, gf.ConstStr(constant.StringVal(keyConst.Val())), types.Typ[types.String])
+	isTrue := gf.FEq(val, gf.ConstStr("true"))
 	fn.KeepDead = true
 	an := fn.Analyze(nil)
 	fn.KeepDead = false
 	nf := 0
-	ast.Inspect(fi.Decl.Body, func(x ast.Node) bool {
+	ownNodes(fi.Decl.Body, func(x ast.Node) {
 		ret, ok := x.(*ast.ReturnStmt)
-		if !ok || len(ret.Results) != 1 || fn.Formula(ret.Results[0]) != gf.False {
-			return true
+		if !ok || len(ret.Results) != 1 {
+			return
 		}
-		nf++
-		name := "GetPausedReconcile: return false at " + c.P.Pos(ret.Pos())
-		var alts []*gf.Formula
-		if mapObj != nil {
-			alts = append(alts, gf.FNil(gf.Var(mapObj)))
+		st := an.StateBefore(ret)
+		if !st.Reachable() {
+			return
 		}
-		if okObj != nil {
-			alts = append(alts, gf.Not(gf.FBool(gf.Var(okObj))))
+		r := fn.Formula(ret.Results[0])
+		if yes := st.Assume(r); yes.Reachable() {
+			n++
+			c.Implies(yes, isTrue, "C11.1-paused-means-annotation-true", "GetPausedReconcile: return "+types.ExprString(ret.Results[0])+" (true)", ret.Pos())
 		}
-		if len(alts) == 0 {
-			c.Bad("C11.1-annotation-true-means-paused", name, ret.Pos(), "the annotation lookup was not found")
-			return true
+		if no := st.Assume(gf.Not(r)); no.Reachable() {
+			nf++
+			c.Implies(no, gf.Or(gf.Not(isTrue), gf.FNil(mapT)), "C11.1-annotation-true-means-paused", "GetPausedReconcile: return "+types.ExprString(ret.Results[0])+" (false)", ret.Pos())
 		}
-		c.Implies(an.StateBefore(ret), gf.Or(alts...), "C11.1-annotation-true-means-paused", name, ret.Pos())
-		return true
 	})
+	c.Floor("C11.1-paused-true-returns", n, 1)
 	c.Floor("C11.1-paused-false-returns", nf, 1)
 }
 
